@@ -103,9 +103,10 @@ def build_program():
             if b.returncode != 0:
                 _BUILD[bkey] = (None, b.stderr[-1500:])
             else:
-                exe = os.path.join("/dev/shm", "qwt-witness-%s" % _digest("exe" + _FEAT.get("v", "") + ("|plain" if _FEAT.get("plain") else "")))
-                shutil.copy(os.path.join(tdir, "release", "qwt-witness"), exe + ".tmp%d" % os.getpid())
-                os.replace(exe + ".tmp%d" % os.getpid(), exe)
+                exe = os.path.join("/dev/shm", "qwt-witness-%s-%d" % (_digest("exe" + _FEAT.get("v", "") + ("|plain" if _FEAT.get("plain") else "")), os.getpid()))
+                shutil.copy(os.path.join(tdir, "release", "qwt-witness"), exe)
+                import atexit
+                atexit.register(lambda p=exe: os.path.exists(p) and os.remove(p))   # private to this process: removed when it ends
                 _BUILD[bkey] = (exe, None)
     finally:
         shutil.rmtree(wd, ignore_errors=True)
